@@ -43,6 +43,7 @@ fn main() {
         "status-byte" => guarded(move || status::status_byte(&hex(&arg))),
         "flags-byte" => guarded(move || status::flags_byte(&hex(&arg))),
         "authdata-decode" => guarded(move || status::authdata_decode(&arg)),
+        "authdata-built" => guarded(move || status::authdata_built(&arg)),
         "cbor-bytes" => guarded(move || cbor::bytes(&hex(&arg))),
         "cose-der" => guarded(move || cbor::cose_der(&arg)),
         "cbor-get-info-response" => guarded(move || cbor::get_info_response(&hex(&arg))),
